@@ -447,7 +447,7 @@ Proof.
     assert (HR' : (length s + (32 - 1)) / 32 = R) by reflexivity.
     unfold st. rewrite (cell_from_striped K 32 wrapn s sat_add dm 0%Z r c) by (try rewrite HR'; fold M; lia).
     rewrite HR'. fold M. unfold val. apply (wval_ok K dm s (c * R + r) HK Hdm Hs). }
-  assert (Hok : sseq_ok K st) by (exact (striped_ok K 32 wrapn s HK eq_refl Hs)).
+  assert (Hok : sseq_ok K st) by (apply striped_ok; solve [lia | assumption | reflexivity]).
   exists sc. split; [|split; [|split]].
   - intros a. unfold score_u8. rewrite Hrows, Hwr. replace (R + wrapn - wrapn) with R by lia.
     destruct a; cbn [score_rows_dispatch]; try exact Hgen.
@@ -475,4 +475,59 @@ Proof.
   intros H. unfold score_position, wscore. rewrite window_win.
   apply (score_pos_striped K 32 wrapn s ltac:(lia)).
   pose proof (L_le_RC 32 s ltac:(lia)). lia.
+Qed.
+
+(* ---------- shape of the discrete matrix ---------- *)
+
+Lemma disc_rows_shape {T} (N : NumOps T) (K : nat) (f : T) (m : list (list T)) : forall os,
+  length os = length m -> Forall (fun row => length row = K) m ->
+  length (disc_rows N f m os) = length m /\ Forall (fun row => length row = K) (disc_rows N f m os).
+Proof.
+  induction m as [|row m IH]; intros [|o os] Hl Hm; cbn in Hl; try lia; cbn [disc_rows length].
+  - split; [reflexivity|constructor].
+  - inversion Hm; subst. destruct (IH os ltac:(lia) H2) as [H3 H4]. split; [lia|].
+    constructor; [rewrite map_length; reflexivity|exact H4].
+Qed.
+
+(* ---------- end to end: every arm, every position (real score in exact arithmetic) ---------- *)
+
+Theorem backends_overestimate (K : nat) (m : list (list xq)) (d : @dmat xq) (pads : nat -> list Z)
+        (s : list nat) (a : arm) (i : nat) :
+  0 < K -> K <= 16 ->
+  Forall (fun row => length row = K) m ->
+  Forall (fun row => Forall xq_finite (nonwild K row)) m ->
+  to_discrete xq_ops K m = Ok d ->
+  (forall i, 16 <= K + length (pads i)) ->
+  Forall (fun v => v < K) s ->
+  1 <= length m -> i + length m <= length s ->
+  exists sc b real,
+    score_u8 a (d_data d) pads (striped K 32 (configure_wrap_of (length m)) s) = Ok sc /\
+    sc_index sc i = Ok b /\
+    disc_score (d_data d) (striped K 32 (configure_wrap_of (length m)) s) i = Ok b /\
+    real_score xq_ops m (striped K 32 (configure_wrap_of (length m)) s) i = Ok real /\
+    (scale xq_ops d real <= b)%Z.
+Proof.
+  intros HK HK16 Hm Hfin Hd Hp Hs HM Hi.
+  destruct (to_discrete_fin K m d Hfin Hd) as [os [f [_ [_ [_ [_ [Hdata Hlen]]]]]]].
+  assert (Hl2 : length (map XFin os) = length m) by (rewrite map_length; exact Hlen).
+  destruct (disc_rows_shape xq_ops K (XFin f) m (map XFin os) Hl2 Hm) as [Hdl Hdk].
+  rewrite <- Hdata in Hdl, Hdk.
+  assert (Hcw : configure_wrap_of (length m) = length m - 1).
+  { unfold configure_wrap_of. destruct (Nat.eqb_spec (length m) 0); [lia|reflexivity]. }
+  rewrite Hcw. set (wrapn := length m - 1).
+  destruct (score_u8_windows K (d_data d) pads s wrapn HK HK16 Hdk Hp Hs) as [sc [Hsc [_ [_ Hidx]]]];
+    try (rewrite Hdl; unfold wrapn; lia).
+  assert (HiR : i < (length s + 31) / 32 * 32).
+  { pose proof (L_le_RC 32 s ltac:(lia)) as HLR. change (32 - 1) with 31 in HLR. lia. }
+  specialize (Hidx i HiR). rewrite Hdl in Hidx.
+  pose proof (wval_ok K (d_data d) s i HK Hdk Hs) as Hb. rewrite Hdl in Hb.
+  rewrite window_win in Hidx.
+  set (b := wval (d_data d) (win s (K - 1) i (length m))) in *.
+  destruct (wscore_from_total xq_add K m (n_zero xq_ops) (win s (K - 1) i (length m)) Hm (win_ok K s i _ HK Hs))
+    as [real Hreal]; [rewrite win_length; lia|].
+  exists sc, b, real. split; [apply Hsc|]. split; [rewrite Hidx; exact Hb|]. split; [|split].
+  - unfold disc_score. rewrite (score_position_window sat_add 0%Z K wrapn (d_data d) s i) by (rewrite Hdl; exact Hi).
+    rewrite Hdl, window_win. exact Hb.
+  - unfold real_score. rewrite (score_position_window _ _ K wrapn m s i Hi). rewrite window_win. exact Hreal.
+  - apply (discrete_overestimates K m d (win s (K - 1) i (length m)) real b Hfin Hd); [exact Hreal|exact Hb].
 Qed.
